@@ -90,6 +90,8 @@ def build_problem(sc):
 
 
 def exact_at(wm, t):
+    if not math.isfinite(float(t)):
+        return onp.full((len(wm["u0"]) if "u0" in wm else 1,), onp.nan)
     return onp.array([float(v) for v in wm["exact"](mp.mpf(float(t)))])
 
 
@@ -180,11 +182,13 @@ def exec_adaptive(sc):
     ratios = [acc[i][1] / acc[i - 1][1] for i in range(1, len(acc))]
     worst = 0.0
     for i, t in enumerate(ts):
-        u = exact_at(wm, t)
-        err = onp.abs(mean0[i] - u) / (sc["atol"] + sc["rtol"] * onp.abs(u))
-        ratio = float(onp.max(err))
-        worst = max(worst, ratio)
-        if not onp.all(onp.isfinite(mean0[i])):
+        finite = bool(onp.isfinite(t) and onp.all(onp.isfinite(mean0[i])))
+        if finite:
+            u = exact_at(wm, t)
+            err = onp.abs(mean0[i] - u) / (sc["atol"] + sc["rtol"] * onp.abs(u))
+            ratio = float(onp.max(err))
+            worst = max(worst, ratio)
+        if not finite:  # (a NaN time would send the reference ODE solution into an endless loop)
             v = {"inv": "TOL-finite", "msg": f"non-finite solution at t={t:.6g}"}
             # finding predicate: dynamic calibration whose mean-only residual vanishes identically (scale exactly 0)
             zero_scale = any(op["op"] == "step" and not onp.all(onp.asarray(op["post"].output_scale, dtype=float) > 0)
@@ -246,29 +250,53 @@ def exec_fixed(sc):
     T = sc["world"]["T"]
     viol, stats = [], {}
     errs = []
-    for g in grids_for(sc, T):
-        with flowseam.stepped(budget=50_000), warnings.catch_warnings():
+
+    def error_on(g):
+        with flowseam.stepped(budget=200_000), warnings.catch_warnings():
             warnings.simplefilter("ignore")
             sol = ivpsolve.solve_fixed_grid(solver=b.solver)(b.prior, grid=jnp.asarray(g), damp=0.0)
         mean0 = onp.asarray(sol.u.mean[0], dtype=float).reshape(len(g), -1)
         e = 0.0
         for i in range(1, len(g), max(1, len(g) // 16)):
             e = max(e, float(onp.max(onp.abs(mean0[i] - exact_at(wm, g[i])))))
-        e = max(e, float(onp.max(onp.abs(mean0[-1] - exact_at(wm, g[-1])))))
-        errs.append(e)
-    orders = [math.log2(errs[i] / errs[i + 1]) if errs[i + 1] > 0 else float("inf") for i in range(2)]
+        return max(e, float(onp.max(onp.abs(mean0[-1] - exact_at(wm, g[-1])))))
+
+    grids = grids_for(sc, T)
+    for g in grids:
+        errs.append(error_on(g))
+    floor = 1e-11 * (1 + max(abs(x) for x in exact_at(wm, T)))
+    need = (q + 1) - (cfg["order"] - 1) - ORDER_SLACK
+
+    def decide():
+        orders = []
+        for i in range(len(errs) - 1):
+            e1, e2 = errs[i], errs[i + 1]
+            if not (math.isfinite(e1) and math.isfinite(e2)):
+                orders.append(float("-inf"))  # a non-finite error never confirms an order
+            else:
+                orders.append(math.log2(e1 / e2) if e2 > 0 and e1 > 0 else float("inf"))
+        return orders, [o for o, e2 in zip(orders, errs[1:]) if not math.isfinite(e2) or e2 > floor]
+
+    orders, usable = decide()
+    # the statement is asymptotic: three levels can sit in the pre-asymptotic regime (error components of opposite sign
+    # cancel on one grid and the order between neighbouring levels swings, e.g. 5.5, 4.1, 10.4 for q = 6).  Before an
+    # order is declared missing, refine up to two more levels, as long as the errors stay above the rounding floor.
+    while usable and max(orders) < need and len(errs) < 5 and math.isfinite(errs[-1]) and errs[-1] > floor and len(grids[-1]) <= 1200:
+        g = grids[-1]
+        grids.append(onp.sort(onp.concatenate([g, 0.5 * (g[:-1] + g[1:])])))
+        errs.append(error_on(grids[-1]))
+        orders, usable = decide()
     stats["errors"] = errs
     stats["orders"] = orders
-    floor = 1e-11 * (1 + max(abs(x) for x in exact_at(wm, T)))
-    usable = [o for o, e2 in zip(orders, errs[1:]) if e2 > floor]
+    stats["levels"] = len(errs)
     if not usable:
         return viol, ["errors_at_rounding_level"], stats
-    best = max(usable)
-    stats["observed_order"] = best
+    # a pair whose finer error is at rounding level can only under-state the order: it never refutes, but it may confirm
+    best = max(usable + orders)
+    stats["observed_order"] = max(-99.0, min(best, 99.0))
     # second-order formulations lose one order (the constraint acts on u''): measured q on the repaired tree
-    need = (q + 1) - (cfg["order"] - 1) - ORDER_SLACK
     if best < need:
-        v = {"inv": "ORDER", "msg": f"fixed-grid errors {['%.2e' % e for e in errs]} under refinement h, h/2, h/4 give order {best:.2f} < {need} (q={q}, ODE order {cfg['order']}; {cfg['strategy']}, {cfg['ssm']}, {cfg['calib']}, {cfg['lin']})"}
+        v = {"inv": "ORDER", "msg": f"fixed-grid errors {['%.2e' % e for e in errs]} under refinement h, h/2, h/4, ... give order {best:.2f} < {need} (q={q}, ODE order {cfg['order']}; {cfg['strategy']}, {cfg['ssm']}, {cfg['calib']}, {cfg['lin']})"}
         # finding predicate: dynamic calibration at q >= 5 amplifies errors step by step on fixed grids
         # (reproduced digit for digit by the 50-digit reference model => algorithmic, not a coding error)
         if cfg["calib"] == "dynamic" and q >= 5:
